@@ -640,10 +640,12 @@ impl<'a> Run<'a> {
     let doc_kind = self.docs[doc_idx].kind();
     // ---- fault mask over storage-call occurrences of this operation ----
     let mask: u32 = if self.faulty {
+      // (purge_method makes up to five storage calls since it verifies before it claims a revert - get_key_id, delete,
+      // delete_key_id, exists, insert_key_id -, generate_method up to three plus its undo)
       match ctx::weighted(&[3, 6, 3]) {
         0 => 0,
-        1 => 1 << ctx::choose(4),
-        _ => ctx::choose(16) as u32,
+        1 => 1 << ctx::choose(6),
+        _ => ctx::choose(64) as u32,
       }
     } else {
       0
@@ -842,7 +844,7 @@ impl<'a> Run<'a> {
       Err(e) => format!("Err({})", err_kind(e)),
     };
     ctx::trace(format!(
-      "op{} doc{doc_idx}({doc_kind}) {op:?} mask={mask:04b} calls=[{summary}] join={join_order} bystander={} -> {outcome}",
+      "op{} doc{doc_idx}({doc_kind}) {op:?} mask={mask:06b} calls=[{summary}] join={join_order} bystander={} -> {outcome}",
       self.step, with_bystander
     ));
     ctx::cover(format!(
